@@ -176,13 +176,401 @@ def run_generator_cases(ctx, n):
     coq_run(ctx, 'C18_gen', 'zcheck_gen', items, 'generator', per=150)
 
 
-def run_canop_cases(ctx, n):
-    pass
+# ---------------------------------------------------------------------------
+# CanonicalOperator
+# ---------------------------------------------------------------------------
 
+def kron_dense(terms):
+    out = None
+    for term in terms:
+        K = np.array([[1.0]])
+        for B in term:
+            K = np.kron(K, G.mat_np(B))
+        out = K if out is None else out + K
+    return out
+
+
+def c_terms(terms):
+    return clist([clist([CQ.c_mat(B) for B in term]) for term in terms])
+
+
+def run_canop_cases(ctx, n):
+    rng = ctx.rng
+    cases = []
+    for i in range(n):
+        d = rng.choice([1, 2, 2, 3])
+        k = rng.choice(['T', 'add', 'sub', 'neg', 'mul', 'mul', 'kron', 'slice', 'apply', 'apply'])
+        mid = [rng.choice([1, 2, 3]) for _ in range(d)]
+        out = [rng.choice([1, 2, 3]) for _ in range(d)]
+        if k == 'slice':
+            out = mid
+        A = [[G.rint_mat(rng, out[j], mid[j], -2, 2) for j in range(d)] for _ in range(rng.randint(1, 3))]
+        c = {'A': A, 'o': {'k': k}, 'sparse': rng.random() < 0.6}
+        if k in ('add', 'sub'):
+            c['B'] = [[G.rint_mat(rng, out[j], mid[j], -2, 2) for j in range(d)] for _ in range(rng.randint(1, 2))]
+        elif k == 'mul':
+            inn = [rng.choice([1, 2, 3]) for _ in range(d)]
+            c['B'] = [[G.rint_mat(rng, mid[j], inn[j], -2, 2) for j in range(d)] for _ in range(rng.randint(1, 2))]
+            c['o']['matmul'] = rng.random() < 0.5
+        elif k == 'kron':
+            d2 = rng.choice([1, 2])
+            c['B'] = [[G.rint_mat(rng, rng.choice([1, 2]), rng.choice([1, 2, 3]), -2, 2) for j in range(d2)]
+                      for _ in range(rng.randint(1, 2))]
+            c['B'] = [[dict(Bm, r=c['B'][0][j]['r'], c=c['B'][0][j]['c'],
+                            d=[[float(rng.randint(-2, 2)) for _ in range(c['B'][0][j]['c'])] for _ in range(c['B'][0][j]['r'])])
+                       for j, Bm in enumerate(t)] for t in c['B']]
+        elif k == 'slice':
+            lim = []
+            for m in mid:
+                lo = rng.randint(0, m)
+                lim.append([lo, rng.randint(lo, m)])
+            c['o']['limits'] = lim
+        elif k == 'apply':
+            c['X'] = G.gen_tensor(rng, mid)
+            c['o']['matmul'] = rng.random() < 0.5
+        cases.append(c)
+    res = ctx.impl.run(DRIVER, {'cop': cases})['cop']
+    items_cop, items_app = [], []
+    dist = {}
+    for c, r in zip(cases, res):
+        k = c['o']['k']
+        dist[k] = dist.get(k, 0) + 1
+        ctx.count(('cop', repr(c)), nontrivial=True)
+        KA = kron_dense(c['A'])
+        KB = kron_dense(c['B']) if c.get('B') else None
+        bad = None
+        replay = {'case': c, 'impl': r, 'how': 'CanonicalOperator(terms) built from integer matrices (%s); op %s' % (
+            'scipy.sparse csr' if c['sparse'] else 'ndarray', k)}
+        if r['status'] != 'Ok':
+            bad = 'valid operator operation raised %s: %s' % (r['status'], r.get('msg'))
+        elif k == 'apply':
+            want = (KA @ G.dense_of(c['X']).ravel()).reshape([t['r'] for t in c['A'][0]])
+            got = arr(r['dense'])
+            if got.shape != want.shape or not np.array_equal(got, want):
+                bad = 'A.apply(X) expands to something else than asmatrix(A) @ vec(X)'
+        else:
+            if k == 'T':
+                want = KA.T
+            elif k == 'add':
+                want = KA + KB
+            elif k == 'sub':
+                want = KA - KB
+            elif k == 'neg':
+                want = -KA
+            elif k == 'mul':
+                want = KA @ KB
+            elif k == 'kron':
+                want = np.kron(KA, KB)
+            else:
+                def pos(shape, lim):
+                    idx = [0]
+                    for n_, (lo, hi) in zip(shape, lim):
+                        idx = [p * n_ + q for p in idx for q in range(lo, hi)]
+                    return np.array(idx, dtype=int)
+                rows = pos([t['r'] for t in c['A'][0]], c['o']['limits'])
+                cols = pos([t['c'] for t in c['A'][0]], c['o']['limits'])
+                want = KA[rows][:, cols]
+            got = kron_dense(r['terms'])
+            if got.shape != want.shape or not np.array_equal(got, want):
+                bad = 'Kronecker expansion of the result terms differs from the operation on the expanded matrices'
+            elif 'asmatrix' in r and not np.array_equal(np.array(r['asmatrix']).reshape(want.shape), want):
+                bad = 'asmatrix() of the result differs from the operation on the expanded matrices'
+        if bad:
+            ctx.report('impl:canop:%s' % k, bad, replay)
+        if r['status'] != 'Ok':
+            continue
+        try:
+            if k == 'apply':
+                if r['result']['t'] != 'full' and 'dense' in r:
+                    pass
+                X = {'t': 'full', 'sh': list(G.dense_of(c['X']).shape), 'd': G.dense_of(c['X']).ravel().tolist()}
+                items_app.append(('(%s, (%s, %s), (%s, %s))' % (
+                    c_terms(c['A']), CQ.c_shape(X['sh']), clist(X['d'], CQ.zi),
+                    CQ.c_shape(r['dense']['sh']), clist(r['dense']['d'], CQ.zi)), replay, k, bad))
+            else:
+                co = {'T': 'CT', 'add': 'CAdd', 'sub': 'CSub', 'neg': 'CNeg', 'mul': 'CMul', 'kron': 'CKron'}.get(k)
+                if k == 'slice':
+                    co = '(CSlice %s)' % clist(['(%s, %s)' % (cnat(a), cnat(b)) for a, b in c['o']['limits']])
+                dm = r.get('asmatrix') if 'asmatrix' in r else kron_dense(r['terms']).tolist()
+                items_cop.append(('(%s, %s, %s, %s, %s)' % (
+                    co, c_terms(c['A']), c_terms(c.get('B') or []), c_terms(r['terms']),
+                    clist([clist(row, CQ.zi) for row in dm])), replay, k, bad))
+        except CQ.NotExact:
+            pass
+    ctx.cov['input_distribution']['operator_ops'] = dist
+    coq_run(ctx, 'C18_cop', 'zcheck_cop', items_cop, 'canop', per=60)
+    coq_run(ctx, 'C18_capply', 'zcheck_capply', items_app, 'canop-apply', per=60)
+
+
+# ---------------------------------------------------------------------------
+# rank_1_update / aca3d_update
+# ---------------------------------------------------------------------------
 
 def run_update_cases(ctx, n):
-    pass
+    rng = ctx.rng
+    cases = []
+    for i in range(n):
+        if rng.random() < 0.6:
+            r_, c_ = rng.randint(1, 5), rng.randint(1, 5)
+            cases.append({'k': 'r1', 'X': G.rint_mat(rng, r_, c_, -9, 9), 'alpha': float(rng.randint(-4, 4)),
+                          'u': [float(rng.randint(-5, 5)) for _ in range(r_)],
+                          'v': [float(rng.randint(-5, 5)) for _ in range(c_)]})
+        else:
+            sh = [rng.randint(1, 4) for _ in range(3)]
+            cases.append({'k': 'r3', 'X': G.rint_full(rng, sh, -9, 9), 'alpha': float(rng.randint(-4, 4)),
+                          'u': [float(rng.randint(-5, 5)) for _ in range(sh[0])],
+                          'V': G.rint_mat(rng, sh[1], sh[2], -5, 5)})
+    res = ctx.impl.run(DRIVER, {'upd': cases})['upd']
+    it1, it3 = [], []
+    for c, r in zip(cases, res):
+        ctx.count(('upd', repr(c)), nontrivial=True)
+        bad = None
+        replay = {'case': c, 'impl': r, 'how': 'lowrank.rank_1_update(X, alpha, u, v) / lowrank.aca3d_update(X, alpha, u, V)'}
+        if r['status'] != 'Ok':
+            bad = 'raised %s: %s' % (r['status'], r.get('msg'))
+        elif c['k'] == 'r1':
+            want = G.mat_np(c['X']) + c['alpha'] * np.outer(c['u'], c['v'])
+            if not np.array_equal(G.mat_np(r['X']), want):
+                bad = 'X is not X + alpha u v^T afterwards'
+        else:
+            want = arr(c['X']) + c['alpha'] * np.multiply.outer(np.array(c['u']), G.mat_np(c['V']))
+            if not np.array_equal(arr(r['X']), want):
+                bad = 'X is not X + alpha u (x) V afterwards'
+        if bad:
+            ctx.report('impl:update:%s' % c['k'], bad, replay)
+        if r['status'] != 'Ok':
+            continue
+        if c['k'] == 'r1':
+            it1.append(('(%s, %s, %s, %s, %s)' % (CQ.c_mat(c['X']), CQ.zi(c['alpha']), clist(c['u'], CQ.zi),
+                                                  clist(c['v'], CQ.zi), CQ.c_mat(r['X'])), replay, 'r1', bad))
+        else:
+            it3.append(('((%s, %s), %s, %s, %s, (%s, %s))' % (
+                CQ.c_shape(c['X']['sh']), clist(c['X']['d'], CQ.zi), CQ.zi(c['alpha']), clist(c['u'], CQ.zi),
+                CQ.c_mat(c['V']), CQ.c_shape(r['X']['sh']), clist(r['X']['d'], CQ.zi)), replay, 'r3', bad))
+    ctx.cov['input_distribution']['cython_updates'] = len(cases)
+    coq_run(ctx, 'C18_r1', 'zcheck_r1', it1, 'rank_1_update')
+    coq_run(ctx, 'C18_r3', 'zcheck_r3', it3, 'aca3d_update')
+
+
+# ---------------------------------------------------------------------------
+# floating-point part.  Bounds (u = 2^-52):
+#  * QR/SVD based results (orthogonalize, norm of a Tucker tensor, hosvd, compress): Householder QR and
+#    LAPACK's SVD are backward stable with constants gamma ~ c*m*n*u (Higham, Accuracy and Stability,
+#    Thm 19.4); the expansion of a Tucker tensor is multilinear in (U_1..U_d, X), so a relative perturbation
+#    delta of every factor moves it by at most (d+1)*delta*S with the scale S = prod_k ||U_k||_F * ||X||_F.
+#    BOUND_QR = 200 * (sum_k n_k + sum_k r_k) * u * S; orthonormality of computed factors: 200 * n * u.
+#  * norm of a canonical tensor with integer factors: all Gram sums are exact integers < 2^53, only the
+#    final sqrt rounds: 4u relative.
+#  * compression: the discarded part of the HOSVD core of the orthogonalised core has squared norm
+#    <= tol_eff^2 by the loop of find_truncation_rank (theorem truncation_error_bound ... tie), factors are
+#    orthonormal, hence ||A - compress(A)||_F <= tol_eff + BOUND_QR with tol_eff = max(tol, rtol*||A||).
+#  * cross approximation of an exact rank-r integer matrix/tensor: in exact arithmetic the residual is 0
+#    after r crosses (aca_step_exact_on_cross, aca_rank1_exact); with row pivoting |row/pivot| <= 1, so every
+#    cross at most doubles the residual entries: rounding <= c*r*2^r*u*max|A| ~ 1e-12*max|A| for r <= 4;
+#    crosses accepted below the tolerance (tol = 1e-11, at most tolcount = 3 of them) add <= 8*tol.
+#    BOUND_ACA = 1e-9 * max(1, max|A|)   (DESIGN.md, three orders above the derived value).
+#  * greedy histories: gta's error is the distance to nested subspaces: monotone in exact arithmetic; grou's
+#    is monotone when each als1 result is a stationary point; slack (1 + 1e-9) * e + 1e-12 * ||A||.
+# ---------------------------------------------------------------------------
+
+def fro(x):
+    return float(np.linalg.norm(np.asarray(x).ravel()))
+
+
+def tucker_scale(spec):
+    s = fro(spec['X']['d'])
+    for U in spec['Us']:
+        s *= max(fro(U['d']), 1.0)
+    return s
+
+
+def lowrank_tensor(rng, shape, r):
+    A = np.zeros(shape)
+    for _ in range(r):
+        t = np.array(1.0)
+        for n_ in shape:
+            v = np.array([float(rng.randint(-3, 3)) for _ in range(n_)])
+            if not v.any():
+                v[rng.randrange(n_)] = 1.0
+            t = np.multiply.outer(t, v)
+        A = A + t
+    return A
+
+
+def full_spec(A):
+    return {'t': 'full', 'sh': list(A.shape), 'd': A.ravel().tolist()}
+
+
+def exact_truncation_rank(X, tolsq):
+    """find_truncation_rank in exact integer arithmetic (X integer-valued)."""
+    X = np.array(X, dtype=object)
+    total = 0
+    while X.size > 0:
+        errs = [int(sum(int(v) ** 2 for v in np.asarray(np.swapaxes(X, i, 0)[-1], dtype=object).ravel())) for i in range(X.ndim)]
+        ax = min(range(X.ndim), key=lambda i: (errs[i], i))
+        total += errs[ax]
+        if total > tolsq:
+            break
+        sl = [slice(None)] * X.ndim
+        sl[ax] = slice(None, -1)
+        X = X[tuple(sl)]
+    return list(X.shape)
 
 
 def run_numeric(ctx, thorough):
-    pass
+    rng = ctx.rng
+    cases = []
+    rep = 3 if thorough else 1
+    decades = [10.0 ** (-k) for k in range(0, 11)]
+
+    def seed():
+        return rng.randrange(2 ** 31)
+
+    for _ in range(12 * rep):
+        shape = G.gen_shape(rng, d=rng.choice([1, 2, 3, 3, 4]))
+        cases.append({'k': 'norm', 'A': G.gen_tensor(rng, shape, rng.choice(['canon', 'tucker']))})
+    for _ in range(12 * rep):
+        shape = G.gen_shape(rng, d=rng.choice([1, 2, 3, 3, 4]))
+        T = G.gen_tensor(rng, shape, 'tucker')
+        if all(U['c'] >= 1 for U in T['Us']):
+            cases.append({'k': 'orth', 'A': T})
+    for _ in range(10 * rep):
+        shape = G.gen_shape(rng, d=rng.choice([2, 3, 3, 4]))
+        cases.append({'k': 'hosvd', 'X': dict(G.rint_full(rng, shape, -5, 5), t='full')})
+    # compression: every decade of tol and of rtol on tensors with a decaying core
+    for _ in range(2 * rep):
+        shape = [rng.choice([3, 4, 5]) for _ in range(rng.choice([2, 3]))]
+        Rs = [rng.choice([2, 3, 4]) for _ in shape]
+        core = np.array([float(rng.randint(-4, 4)) for _ in range(int(np.prod(Rs)))]).reshape(Rs)
+        for idx in np.ndindex(*Rs):
+            core[idx] *= 10.0 ** (-2.0 * sum(idx))      # entries spread over > 10 decades
+        T = {'t': 'tucker', 'Us': [G.rint_mat(rng, n_, r_) for n_, r_ in zip(shape, Rs)],
+             'X': {'sh': Rs, 'd': core.ravel().tolist()}}
+        nrm = fro(G.dense_of(T))
+        for t in decades:
+            cases.append({'k': 'compress', 'A': T, 'tol': t * max(nrm, 1e-300), 'rtol': None})
+            cases.append({'k': 'compress', 'A': T, 'tol': None, 'rtol': t})
+    for _ in range(25 * rep):
+        shape = [rng.randint(1, 4) for _ in range(rng.choice([1, 2, 3, 4]))]
+        X = G.rint_full(rng, shape, -3, 3)
+        tot = sum(v * v for v in X['d'])
+        m = rng.randint(0, int(tot) + 1)
+        cases.append({'k': 'trunc_rank', 'X': dict(X, t='full'), 'tol': math.sqrt(m + 0.5), 'm': m})
+    for _ in range(10 * rep):
+        r_ = rng.randint(1, 4)
+        A = lowrank_tensor(rng, [rng.randint(4, 12), rng.randint(4, 12)], r_)
+        for kind in ('aca', 'aca_lr'):
+            cases.append({'k': kind, 'X': full_spec(A), 'tol': 1e-11, 'maxiter': 50, 'r': r_, 'npseed': seed(),
+                          'gen': rng.random() < 0.5})
+    for _ in range(5 * rep):
+        r_ = rng.randint(1, 3)
+        A = lowrank_tensor(rng, [rng.randint(3, 6) for _ in range(3)], r_)
+        cases.append({'k': 'aca3d', 'X': full_spec(A), 'tol': 1e-11, 'maxiter': 30, 'r': r_, 'npseed': seed(),
+                      'lr': rng.random() < 0.5})
+    for _ in range(6 * rep):
+        A = lowrank_tensor(rng, [rng.randint(2, 5) for _ in range(rng.choice([2, 3, 4]))], 1)
+        cases.append({'k': 'als1', 'A': full_spec(A), 'npseed': seed()})
+    for _ in range(6 * rep):
+        d = rng.choice([2, 3])
+        r_ = rng.randint(1, 3)
+        A = lowrank_tensor(rng, [rng.randint(3, 5) for _ in range(d)], r_)
+        nrm = fro(A)
+        t = rng.choice(decades) * nrm
+        cases.append({'k': 'grou', 'A': full_spec(A), 'R': rng.randint(1, r_ + 1), 'tol': max(t, 1e-10 * nrm), 'npseed': seed()})
+        cases.append({'k': 'gta', 'A': full_spec(A), 'R': rng.randint(1, r_ + 1), 'tol': max(t, 1e-10 * nrm),
+                      'rtol': max(rng.choice(decades), 1e-10), 'npseed': seed()})
+    try:
+        res = []
+        for ch in chunked(cases, 60):
+            res += ctx.impl.run(DRIVER, {'num': ch}, timeout=900)['num']
+    except Exception as e:  # noqa
+        ctx.broken.append('approximation runs did not finish: %s' % str(e)[-300:])
+        return
+    dist = {}
+    maxdev = {}
+    for c, r in zip(cases, res):
+        k = c['k']
+        dist[k] = dist.get(k, 0) + 1
+        ctx.count(('num', repr(c)), nontrivial=True)
+        bad = None
+
+        def dev(name, val, bound):
+            maxdev[name] = max(maxdev.get(name, 0.0), float(val) / bound if bound > 0 else (0.0 if val == 0 else float('inf')))
+            return not (val <= bound)
+
+        if r['status'] != 'Ok':
+            bad = 'raised %s: %s' % (r['status'], r.get('msg'))
+        elif k == 'norm':
+            D = G.dense_of(c['A'])
+            ref = math.sqrt(float(np.sum(D * D)))
+            if c['A']['t'] == 'canon':
+                bound = 4 * EPS * ref
+            else:
+                bound = 200 * (sum(D.shape) + sum(c['A']['X']['sh'])) * EPS * tucker_scale(c['A'])
+            if dev('norm', abs(r['norm'] - ref), bound):
+                bad = 'norm() = %r, Frobenius norm of the expansion = %r (bound %g)' % (r['norm'], ref, bound)
+        elif k in ('orth', 'hosvd'):
+            D = G.dense_of(c['A'] if k == 'orth' else c['X'])
+            sc = tucker_scale(c['A']) if k == 'orth' else fro(D)
+            nn = sum(D.shape) * 2
+            bound = 200 * nn * EPS * max(sc, 1e-300)
+            if dev(k + '-expansion', float(np.max(np.abs(arr(r['dense']) - D))) if D.size else 0.0, bound):
+                bad = '%s changes the expansion by more than %g' % (k, bound)
+            for U in r['Us']:
+                Um = G.mat_np(U)
+                if Um.shape[1] and dev(k + '-orthonormal', float(np.max(np.abs(Um.T @ Um - np.eye(Um.shape[1])))),
+                                       200 * max(Um.shape) * EPS):
+                    bad = '%s factor is not orthonormal' % k
+            if k == 'orth' and dev('tucker-norm', abs(r['norm'] - fro(D)), bound):
+                bad = 'norm() of the Tucker tensor differs from the norm of its expansion'
+            if k == 'hosvd' and list(r['core']['sh']) != [G.mat_np(U).shape[1] for U in r['Us']]:
+                bad = 'hosvd core shape does not match the factors'
+        elif k == 'compress':
+            D = G.dense_of(c['A'])
+            nrm = fro(D)
+            tol_eff = max(c['tol'] if c['tol'] is not None else 1e-15, nrm * (c['rtol'] if c['rtol'] is not None else 1e-15))
+            bound = tol_eff * (1 + 1e-9) + 200 * (sum(D.shape) + sum(c['A']['X']['sh'])) * EPS * tucker_scale(c['A'])
+            if dev('compress', fro(arr(r['dense']) - D), bound):
+                bad = 'compress(tol=%r, rtol=%r) error %g exceeds the requested %g' % (c['tol'], c['rtol'], fro(arr(r['dense']) - D), tol_eff)
+            elif any(a > min(b, n_) for a, b, n_ in zip(r['R'], c['A']['X']['sh'], D.shape)):
+                bad = 'compress increased the rank: %s from %s' % (r['R'], c['A']['X']['sh'])
+        elif k == 'trunc_rank':
+            want = exact_truncation_rank(arr(c['X']), c['m'])
+            X = arr(c['X'])
+            kept = X[tuple(slice(None, s_) for s_ in r['shape'])]
+            if float(np.sum(X * X) - np.sum(kept * kept)) > c['m']:
+                bad = 'find_truncation_rank discards squared norm %g > tol^2 = %g' % (float(np.sum(X * X) - np.sum(kept * kept)), c['m'] + 0.5)
+            elif r['shape'] != want:
+                ctx.broken.append('find_truncation_rank returns %s, exact greedy loop gives %s' % (r['shape'], want))
+                ctx.report('tie:find_truncation_rank', 'greedy truncation differs from its exact transcription (bound still met)',
+                           {'case': c, 'impl': r, 'exact': want}, found_input=False)
+        elif k in ('aca', 'aca_lr', 'aca3d'):
+            D = arr(c['X'])
+            bound = 1e-9 * max(1.0, float(np.max(np.abs(D))))
+            if dev(k, float(np.max(np.abs(arr(r['dense']) - D))), bound):
+                bad = '%s of an exact rank-%d array deviates by %g (bound %g)' % (k, c['r'], float(np.max(np.abs(arr(r['dense']) - D))), bound)
+            if k == 'aca_lr' and r['ncross'] > c['r'] + 6:
+                bad = 'aca_lr needs %d crosses for exact rank %d' % (r['ncross'], c['r'])
+        elif k == 'als1':
+            D = arr(c['A'])
+            if dev('als1', fro(arr(r['dense']) - D), 1e-9 * fro(D)):
+                bad = 'als1 does not reproduce an exact rank-1 tensor'
+        elif k in ('grou', 'gta'):
+            D = arr(c['A'])
+            nrm = fro(D)
+            errs = r['errors']
+            for a, b in zip(errs, errs[1:]):
+                if not (b <= a * (1 + 1e-9) + 1e-12 * nrm):
+                    bad = '%s error history increases: %s' % (k, errs)
+            stop_ok = errs[-1] < c['tol'] or len(errs) == c['R'] or (k == 'gta' and errs[-1] < c['rtol'] * nrm)
+            if not stop_ok:
+                bad = '%s stopped with error %g >= tol %g before the rank limit %d' % (k, errs[-1], c['tol'], c['R'])
+            if len(errs) > c['R']:
+                bad = '%s exceeds the rank limit' % k
+            if dev(k + '-history', abs(errs[-1] - fro(arr(r['dense']) - D)), 1e-9 * max(nrm, 1.0)):
+                bad = '%s: last history entry %g is not the error of the returned tensor %g' % (k, errs[-1], fro(arr(r['dense']) - D))
+        if bad:
+            ctx.report('impl:numeric:%s' % k, bad, {'case': c, 'impl': {kk: v for kk, v in r.items() if kk not in ('dense',)},
+                                                    'how': 'harness/impl/c18_driver.py mode num'})
+    ctx.cov['input_distribution']['numeric'] = dist
+    ctx.cov['largest_observed_deviation_over_bound'] = {k: float('%.3g' % v) for k, v in maxdev.items()}
